@@ -95,8 +95,15 @@ inline void ledger_reset() {
 
 // KIND: 0 = TR (declares trivially_relocatable, not trivially copyable); 1 = NTR (stores self pointer);
 //       2 = NTR move-only; 3 = NTR with potentially-throwing move (C15/C17 only); 4 = like 3 but with a noexcept copy constructor
+// The relocatability declaration is inherited, so that the non relocatable kinds make NO declaration at all (the "neither" category of the
+// properties: amc must fall back to std::is_trivially_copyable, which is false for them) instead of an explicit opt-out.
+struct DeclaresRelocatable {
+  typedef std::true_type trivially_relocatable;
+};
+struct DeclaresNothing {};
+
 template <int KIND>
-struct Tracked {
+struct Tracked : std::conditional<KIND == 0, DeclaresRelocatable, DeclaresNothing>::type {
   static const bool kIsTR = KIND == 0;
   int32_t key;
   uint32_t pay;
@@ -261,8 +268,6 @@ struct Tracked {
   std::strong_ordering operator<=>(const Tracked &o) const { check_live("read(<=>)"); o.check_live("read(<=>)"); return key <=> o.key; }
 #endif
 
-  // opt-in / opt-out of amc's trait
-  typedef typename std::conditional<KIND == 0, std::true_type, std::false_type>::type trivially_relocatable;
 };
 
 typedef Tracked<0> TR;
